@@ -22,6 +22,14 @@ let handle (x : Sexp.t) : string =
     | SPanic -> "(panic)"
     | SFuel -> "(outoffuel)" in
   let impl_txt = Sexp.to_string impl_s in
+  (* kernel cross-check: the model's tree, wt/type_of of the input, and (bit-vector inputs) the value of the input and of the
+     model's result under the all-ones valuation *)
+  Registry.set_model_lazy (fun () ->
+      let ty_txt t = match t with TBV w -> Printf.sprintf "(bv %s)" (dec_of_n w) | TArr (iw, dw) -> Printf.sprintf "(arr %s %s)" (dec_of_n iw) (dec_of_n dw) in
+      let rho1 = { rho_bv = (fun _ w -> Evalutil.ones w); rho_arr = (fun _ _ dw -> fun i -> N.modulo i (Evalutil.pow2 dw)) } in
+      let v x = match type_of x with TBV w -> "b" ^ bits_of_n_loose (int_of_n w) (ebv rho1 x) | TArr _ -> "array" in
+      Printf.sprintf "(c01 %s %s %s %s %s)" model_txt (if wt e then "true" else "false") (ty_txt (type_of e)) (v e)
+        (match model with SOk r -> v r | _ -> "none"));
   let flag k = match Sexp.field_opt k fs with Some [v] -> Sexp.to_string v | _ -> "" in
   if impl_txt = "(panic)" then begin
     let loc = match Sexp.field_opt "panicloc" fs with Some [l] -> Sexp.atom l | _ -> "?" in
